@@ -3,7 +3,7 @@
    PARTIAL, stated: process-level facts (isatty, signals, stdio buffering, getopt) are observed by running the real binary,
    not proved. In the model the result does not depend on --quiet / --debug / DEBUG_* because they are not inputs of
    main_noninteractive at all; that independence carries weight only through the correspondence runs. *)
-From BV Require Import Base BaseProofs ScriptNum Script Interp Session Value Transforms Cli CliProofs.
+From BV Require Import Base BaseProofs ScriptNum Script Interp Session Value Transforms Cli CliProofs SafetyProofs TerminationProofs.
 Local Open Scope Z_scope.
 
 (* the hex printer: two lower-case hex digits per byte, nothing else, and injective *)
@@ -34,6 +34,28 @@ Theorem C08_outcome : forall chk script_str args flag_mod z out,
     out = print_stack_raw (e_stack (i_e v')).
 Proof. exact main_ok_inv. Qed.
 
+(* NEVER EXITS ABNORMALLY: unless a value parser aborts inside a transform (the C14/C15 layer), the non-interactive run of ANY script text, stack
+   arguments, flag modification and -z setting ends with the stack (exit 0) or a diagnostic (exit 1) - no crash outcome of any operation
+   (C15 safety) and the run-to-end loop finishes within its fuel: every step strictly decreases the number of steps left
+   (operations of the current script + the end-of-script step + the saved redeem script in the pay-to-script-hash phase) *)
+Theorem C08_never_exits_abnormally : forall chk script_str args flag_mod z,
+  (forall s, script_str = Some s -> arg_data do_exec s <> PAbort) -> args_data args [] <> PAbort ->
+  main_noninteractive chk script_str args flag_mod z <> CliAbort.
+Proof. exact main_never_aborts. Qed.
+
+(* the termination measure behind it, for every session without pending scriptPubKey / commitment phase *)
+Theorem C08_every_step_decreases_the_steps_left : forall low_s tap_tweak_ok sha256 c v v',
+  i_tce v = None -> i_succ v = [] -> i_done v = false -> Session.dbg_step low_s tap_tweak_ok sha256 c v = (v', SOk) ->
+  i_tce v' = None /\ i_succ v' = [] /\ (steps_left v' < steps_left v)%nat.
+Proof. exact step_decreases. Qed.
+Theorem C08_run_to_end_never_crashes : forall low_s tap_tweak_ok sha256 c f v,
+  i_tce v = None -> i_succ v = [] -> safe c (i_e v) -> (steps_left v < f)%nat ->
+  forall x, snd (Session.dbg_continue low_s tap_tweak_ok sha256 f c v) <> SCrash x.
+Proof. exact continue_never_crashes. Qed.
+
 Print Assumptions C08_hex_injective.
 Print Assumptions C08_stack_injective.
 Print Assumptions C08_outcome.
+Print Assumptions C08_never_exits_abnormally.
+Print Assumptions C08_every_step_decreases_the_steps_left.
+Print Assumptions C08_run_to_end_never_crashes.
